@@ -261,14 +261,21 @@ pub fn gen_replicas(prop: &str, r: &mut Prng, seed: u64, run: u64) -> Scenario {
 }
 
 pub fn schedule_fingerprint(s: &Scenario) -> u64 {
+    // coarse on purpose: which paths, which order modes per phase, hash mode, duplication on/off,
+    // file or memory, size bucket of the fact set, shape of the sub-ontology request, dropped facts
+    let mut parts: Vec<u64> = s
+        .replicas
+        .iter()
+        .map(|rp| mix2(tag(&rp.label()), rp.term_order.mode as u64 | ((rp.link_order.mode as u64) << 4) | ((rp.ann_order.mode as u64) << 8) | (u64::from(rp.hash.0) << 12) | (u64::from(rp.dup.permille > 0) << 16) | (u64::from(rp.via_file) << 17)))
+        .collect();
+    parts.sort_unstable();
     let mut h = tag(&s.prop) ^ tag(&s.mode);
-    for rp in &s.replicas {
-        h = mix2(h, tag(&rp.label()));
-        h = mix2(h, rp.term_order.mode as u64 | ((rp.link_order.mode as u64) << 4) | ((rp.ann_order.mode as u64) << 8) | (u64::from(rp.hash.0) << 12) | (u64::from(rp.dup.permille > 0) << 16) | (u64::from(rp.via_file) << 17));
+    for p in parts {
+        h = mix2(h, p);
     }
     let n = s.facts.terms.len();
-    h = mix2(h, (n.min(63) as u64) | ((s.facts.isa.len().min(255) as u64) << 8));
-    h = mix2(h, s.sub.as_ref().map_or(0, |x| 1 + x.leaves.len() as u64 + (u64::from(x.hash.0) << 8)));
+    h = mix2(h, (n / 8).min(15) as u64);
+    h = mix2(h, s.sub.as_ref().map_or(0, |x| 1 + x.leaves.len().min(4) as u64 + (u64::from(x.hash.0) << 8)));
     h = mix2(h, s.drop_terms.len() as u64);
     h
 }
